@@ -22,7 +22,7 @@ func init() {
 	core.Register(&core.Prop{
 		ID:    "C20",
 		Level: "fault_enumeration",
-		Rule: "one case = one generated document (write program as in C02 restricted as the quantifier says: unencrypted, no object streams, strings and stream bodies without EOL bytes so that no line-initial marker look-alike exists; all sink kinds, versions, output modes); " +
+		Rule: "one case = one generated document (write program as in C02 restricted as the quantifier says: unencrypted, no object streams, strings without EOL bytes, stream bodies in which no line starts with a digit or with xref/trailer/startxref/%%EOF (EOLs and line-initial endstream/endobj are allowed); all sink kinds, versions, output modes); " +
 			"for that document EVERY prefix length 0..len is enumerated as a crash point, plus 9 xref damage variants (xref section / startxref value / everything from the xref on, overwritten with spaces, 'X' or NUL). " +
 			"True object extents come from the independent strict parser. Non-trivial = at least 3 objects and 100 crash points; distinct = hash of (configuration, operation kinds, image length). Crash points are reported under logical_steps.",
 		Assumptions: []string{
@@ -32,14 +32,14 @@ func init() {
 		},
 		Real:     []string{"seehuhn.de/go/pdf SequentialScan, FileInfo.Read, scanner, Writer (working tree)"},
 		Stub:     []string{"disk image prefixes (crash at byte n)", "overwritten xref ranges", "io.ReaderAt personalities"},
-		Quick:    core.Budget{Runs: 3000, Secs: 50},
+		Quick:    core.Budget{Runs: 1600, Secs: 150},
 		Thorough: core.Budget{Runs: 300000, Secs: 1500},
 		Run:      Run,
 		Corners:  corners,
 	})
 }
 
-var restrict = wprog.Restrict{NoEncrypt: true, NoObjStm: true, SafeText: true, MaxOps: 7, MaxBody: 700, SmallValues: true, NoWriterGet: true}
+var restrict = wprog.Restrict{NoEncrypt: true, NoObjStm: true, SafeText: true, MaxOps: 6, MaxBody: 1400, SmallValues: true, NoWriterGet: true}
 
 func Run(e *core.Env) {
 	cfg := wprog.DrawConfig(e.T, &restrict)
@@ -115,6 +115,28 @@ func Enumerate(e *core.Env, res *wprog.Result, image []byte, eofAtEnd bool) {
 			}
 		}
 		for _, x := range complete {
+			if x.obj != nil {
+				if ss, isStream := x.obj.Value.(*strictpdf.Stream); isStream {
+					if lref, indirect := ss.Dict["Length"].(strictpdf.Ref); indirect {
+						lo := f.Objects[lref]
+						if lo == nil || lo.End > int64(len(data)) || !bytes.Equal(data[lo.Start:lo.End], image[lo.Start:lo.End]) {
+							// the length object is not available here, the extent has
+							// to be recovered by scanning; that is inherently ambiguous
+							// if the raw data ends in an EOL or contains EOL+endstream
+							raw := ss.Raw
+							if n := len(raw); n > 0 && (raw[n-1] == '\n' || raw[n-1] == '\r') {
+								e.Probe("ambiguous extent skipped")
+								continue
+							}
+							if bytes.Contains(raw, []byte("\nendstream")) || bytes.Contains(raw, []byte("\rendstream")) {
+								e.Probe("ambiguous extent skipped")
+								continue
+							}
+							e.Probe("stream extent recovered without /Length")
+						}
+					}
+				}
+			}
 			fo := byStart[x.start]
 			ref := pdf.NewReference(x.ref.Num, x.ref.Gen)
 			if fo == nil || fo.Reference != ref {
@@ -149,23 +171,6 @@ func Enumerate(e *core.Env, res *wprog.Result, image []byte, eofAtEnd bool) {
 			if d := wprog.DictDiff(exp.Dict, stm.Dict); d != "" {
 				e.Fail("value-mismatch", nil, "%s: stream %s dictionary: %s", what, ref, d)
 				return false
-			}
-			ss := x.obj.Value.(*strictpdf.Stream)
-			if lref, indirect := ss.Dict["Length"].(strictpdf.Ref); indirect {
-				lo := f.Objects[lref]
-				if lo == nil || lo.End > int64(len(data)) || !bytes.Equal(data[lo.Start:lo.End], image[lo.Start:lo.End]) {
-					// the length object is not available: extent is recovered
-					raw := ss.Raw
-					if n := len(raw); n > 0 && (raw[n-1] == '\n' || raw[n-1] == '\r') {
-						e.Probe("ambiguous extent skipped")
-						continue
-					}
-					if bytes.Contains(raw, []byte("\nendstream")) || bytes.Contains(raw, []byte("\rendstream")) {
-						e.Probe("ambiguous extent skipped")
-						continue
-					}
-					e.Probe("stream extent recovered without /Length")
-				}
 			}
 			rc, err := pdf.DecodeStream(getter, nil, stm)
 			if err != nil {
